@@ -296,7 +296,7 @@ func genC05Matrix(r *Rng) *C05Scn {
 	for len(keys) < 3 {
 		keys, name = genKeys(r, GenLimits{MaxKeys: 150})
 	}
-	enc := r.PickS("i32", "i32", "str16", "u16", "structle", "userenc", "i64")
+	enc := r.PickS("i32", "i32", "str16", "u16", "structle", "userenc", "i64", "userraw")
 	vals := make([]int64, len(keys))
 	for i := range vals {
 		vals[i] = int64(i / r.Range(1, 2))
